@@ -124,6 +124,10 @@ def main():
         return rng.choice(["x" + "[0:1]" * 40, "a" * 3000, "x[0:" + "9" * 400 + "]",
                            # requests long enough for the error document to echo several KiB
                            "a" * 6000, "x." + "v" * 5000, "dap4.ce=/" + "x" * 5000, "x[" + ":".join(["1"] * 2500) + "]",
+                           # faults whose offending text is echoed in the error message, with non-ASCII characters in it
+                           "x[%C3%A9]", "q&q.a>%22%C3%A9", "lz&lz.k>%C3%A9%20%C3%A9", "f[%E2%82%AC:1]", "q&q.c=%22%C3%A9",
+                           # a variable named twice, the second hyperslab starting beyond what the first one left
+                           "x[2],x[2]", "x[5:9],x[3]", "f[1][0:1],f[1]", "st.m[2:3],st.m[2]", "g[1:2][0:1],g[1]", "by[4:6],by[4]",
                            # record ranges far beyond the data, on lazy and array-backed sequences
                            "lz[0:99999999999999999999]", "lz[0:9223372036854775807]", "lz[99999999999999999999]",
                            "lz.k[0:1:99999999999999999999]", "q[0:99999999999999999999]", "lz[0:99999999999999999999:99999999999999999999]"])
